@@ -67,6 +67,11 @@ CLAIMED["C10"] = dict(
     text="Decides (a) that every field of the conversion/impression info plus the domain constants is bound into the HPKE info and that both ciphertexts are opened under to_enc_bytes() of the very info returned, with the key chosen by the record's key id and failures propagated; (b) totality of the untrusted parsing path: every index, range, bounds-check, unwrap and explicit panic reachable from report bytes is implied by a dominating length guard on the same buffer, by the data.len() >= INFO_OFFSET constructor invariant (all accessor offsets ordered below it through the const definitions) or by a recorded type-level discharge. AEAD authenticity itself and exact round-trip equality are not decided.",
     ref="§3 C10")
 
+CLAIMED["C12"] = dict(
+    technique="static analysis: finite evaluation of each parameter guard over the orderings below/equal/above its bound (compared with a frozen table from the repository's documentation), provenance of the divisor of the noise reduction (power-of-two check), role/step/generator wiring census of the three noise passes",
+    text="Decides the guard and wiring clauses: every documented parameter range check rejects exactly the out-of-range orderings (the deviant `delta != 0.0` guard was found this way), the sample-to-share map reduces modulo a power of two for every admitted width (the 2^32-1 modulus at the production width was found this way), the three noise/padding passes exclude H1, H2, H3 on distinct steps, the two generating helpers draw from the PRSS side they share and the excluded helper contributes zero. The distribution law, truncation point and achieved delta are numerical and not decided.",
+    ref="§3 C12")
+
 NOT_APPLICABLE = {
     "C01": "end-to-end numerical equality of the MPC histogram with a plaintext reference over all inputs/shardings: no clause of it is visible in code shape; static analysis in reach cannot bound it (DESIGN.md §4)",
     "C07": "functional correctness of arithmetic/Boolean circuits over all operand values is numerical; would need symbolic execution of the circuits, a different technique family (DESIGN.md §4)",
